@@ -60,7 +60,7 @@ func parallel(gen func(emit func(item)), work func(r *rig, it item), stop func()
 	return n, complete
 }
 
-var pidTokens = []string{"1", "25007", "4194304", "007"}
+var pidTokens = []string{"1", "25007", "4194304", "007", "010", "0123", "089"}
 
 type sampler struct {
 	mu      sync.Mutex
@@ -118,11 +118,80 @@ func runC06(run *mc.Run) int {
 	if replayLine != "" {
 		return replayOne(run, replayLine, replayPid)
 	}
-	cov := mc.Coverage{Level: "exploration", Evaluations: int(n), Distinct: int(n) / len(pids), Exhaustive: complete, Samples: sm.samples,
-		Rule:  "full cartesian product of the per-field value sets for each of the 22 sshd message forms (sshd's own format strings), each x every pid token, through the real ProcessSshdLogEntry; expected event assembled from the generating fields. distinct_nontrivial = distinct generated lines (all begin with a dispatch keyword and reach a regular expression)",
+	// second pass, end to end: the same lines written to a real FIFO read by the real syslog ingester (the path
+	// the daemon uses); each line must again yield exactly its one event
+	piped := c06ThroughPipe(run, s, pids[0])
+	n += int64(piped)
+	cov := mc.Coverage{Level: "exploration", Evaluations: int(n), Distinct: int(n) / (len(pids) + 1), Exhaustive: complete, Samples: sm.samples,
+		Rule:  "full cartesian product of the per-field value sets for each of the 22 sshd message forms (sshd's own format strings), each x every pid token, through the real ProcessSshdLogEntry, and once more (first pid token) as '<pid> <message>\\n' through a real FIFO into the real syslog ingester; expected event assembled from the generating fields. distinct_nontrivial = distinct generated lines (all begin with a dispatch keyword and reach a regular expression)",
 		Extra: map[string]any{"lines_per_form": sm.forms, "pid_tokens": pids}}
 	cov.Assumptions = []string{"field value sets as listed in go/psshd/gen.go (chosen to hit every greedy/lazy/optional/anchored construct)"}
 	return run.Finish(cov)
+}
+
+// c06ThroughPipe runs every line of the product through pipe -> named-pipe ingester -> syslog ingester ->
+// processor, in batches; a batch that does not yield one event per line is re-run line by line.
+func c06ThroughPipe(run *mc.Run, s sets, pid string) int {
+	dir := os.Getenv("VERIF_BUILD")
+	if dir == "" {
+		dir = os.TempDir()
+	}
+	dir = filepath.Join(dir, "c06-fifos")
+	_ = os.MkdirAll(dir, 0o755)
+	var all []Exp
+	forms(s, func(x Exp) { all = append(all, x) })
+	const batch = 400
+	jobs := make(chan []Exp, 32)
+	var wg sync.WaitGroup
+	judge := func(x Exp, o obs, k int) {
+		one := obs{Events: o.Events[k : k+1], T0: o.T0, T1: o.T1}
+		if msg := checkC06(x, pid, one); msg != "" {
+			run.Violation("C06:piped:"+x.Form+":"+firstWords(msg, 2), map[string]any{"pid": pid, "line": x.Line, "form": x.Form},
+				fmt.Sprintf("line %q written to the sshd pipe as %q: %s", x.Line, pid+" "+x.Line+"\\n", msg))
+		}
+	}
+	for wk := 0; wk < runtime.GOMAXPROCS(0); wk++ {
+		wg.Add(1)
+		go func() {
+			defer wg.Done()
+			for xs := range jobs {
+				var lines []string
+				for _, x := range xs {
+					lines = append(lines, pid+" "+x.Line+"\n")
+				}
+				t0 := time.Now()
+				o := throughPipe(dir, lines)
+				o.T0, o.T1 = t0, time.Now()
+				if len(o.Events) == len(xs) && o.Panic == nil {
+					for k, x := range xs {
+						judge(x, o, k)
+					}
+					continue
+				}
+				for _, x := range xs { // find the lines that do not yield exactly one event
+					t0 := time.Now()
+					o := throughPipe(dir, []string{pid + " " + x.Line + "\n"})
+					o.T0, o.T1 = t0, time.Now()
+					if len(o.Events) != 1 || o.Panic != nil {
+						run.Violation("C06:piped:"+x.Form+":event-count", map[string]any{"pid": pid, "line": x.Line},
+							fmt.Sprintf("line %q written to the sshd pipe yields %d events (panic %v), want exactly 1", x.Line, len(o.Events), o.Panic))
+						continue
+					}
+					judge(x, o, 0)
+				}
+			}
+		}()
+	}
+	for i := 0; i < len(all); i += batch {
+		j := i + batch
+		if j > len(all) {
+			j = len(all)
+		}
+		jobs <- all[i:j]
+	}
+	close(jobs)
+	wg.Wait()
+	return len(all)
 }
 
 func loadLineReplay(run *mc.Run) (string, string) {
@@ -455,7 +524,7 @@ func checkC11(pid, line string, o obs) string {
 
 // garbage enumerates (i) all token strings up to k tokens, (ii) systematic
 // mutations of every valid line, (iii) odd pid tokens on valid lines.
-func garbage(k int, longLen int, s sets, emit func(item)) {
+func garbage(k int, longLen int, s sets, light bool, emit func(item)) {
 	toks := append(append([]string{}, tokens...), strings.Repeat("A", longLen))
 	var rec func(prefix string, depth int)
 	rec = func(prefix string, depth int) {
@@ -477,20 +546,22 @@ func garbage(k int, longLen int, s sets, emit func(item)) {
 		}
 		seenLine[x.Line] = true
 		l := x.Line
-		for i := 0; i < len(l); i++ { // every byte truncation
-			emit(item{x: Exp{Line: l[:i], Form: "truncation"}, pid: "77"})
-		}
 		parts := strings.Split(l, " ")
-		for i := range parts { // delete / duplicate each token
-			del := append(append([]string{}, parts[:i]...), parts[i+1:]...)
-			emit(item{x: Exp{Line: strings.Join(del, " "), Form: "token-deleted"}, pid: "77"})
-			dup := append(append(append([]string{}, parts[:i+1]...), parts[i]), parts[i+1:]...)
-			emit(item{x: Exp{Line: strings.Join(dup, " "), Form: "token-duplicated"}, pid: "77"})
-		}
-		for i := 1; i < len(parts); i++ { // every connective / separator inserted at every token boundary
-			for _, c := range connectives {
-				ins := strings.Join(parts[:i], " ") + " " + strings.TrimSpace(c) + " " + strings.Join(parts[i:], " ")
-				emit(item{x: Exp{Line: ins, Form: "connective-inserted"}, pid: "77"})
+		if !light {
+			for i := 0; i < len(l); i++ { // every byte truncation
+				emit(item{x: Exp{Line: l[:i], Form: "truncation"}, pid: "77"})
+			}
+			for i := range parts { // delete / duplicate each token
+				del := append(append([]string{}, parts[:i]...), parts[i+1:]...)
+				emit(item{x: Exp{Line: strings.Join(del, " "), Form: "token-deleted"}, pid: "77"})
+				dup := append(append(append([]string{}, parts[:i+1]...), parts[i]), parts[i+1:]...)
+				emit(item{x: Exp{Line: strings.Join(dup, " "), Form: "token-duplicated"}, pid: "77"})
+			}
+			for i := 1; i < len(parts); i++ { // every connective / separator inserted at every token boundary
+				for _, c := range connectives {
+					ins := strings.Join(parts[:i], " ") + " " + strings.TrimSpace(c) + " " + strings.Join(parts[i:], " ")
+					emit(item{x: Exp{Line: ins, Form: "connective-inserted"}, pid: "77"})
+				}
 			}
 		}
 		for _, kw := range keywords { // keyword swap
@@ -527,7 +598,7 @@ func runGarbage(run *mc.Run, prop string) int {
 		return replayOne(run, replayLine, replayPid)
 	}
 	n, complete := parallel(func(emit func(item)) {
-		garbage(k, long, s, emit)
+		garbage(k, long, s, prop == "C19" && !run.Thorough(), emit)
 		if prop == "C19" {
 			fs := fieldSets(run.Thorough())
 			forms(fs, func(x Exp) { emit(item{x: x, pid: "4711"}) })
